@@ -254,6 +254,21 @@ def gen_c09(tier, rng):
                     ("2020", "%Y%"), ("2020", "%Y%E"), ("2020x", "%Y%Ex"), ("1.5", "%E*S"), ("1.", "%E*S"), (".5", "%E*f"), ("5", "%E3f"), ("x", "%E*f")]:
         for zid in (ids[0], ids[-1]):
             cases.append("parse %s %s %s" % (zid, hx(fm), hx(inp)))
+    # %E4Y: exactly four characters, -999 .. 9999 (expectations from the calendar)
+    def e4(y):
+        return "%04d" % y if y >= 0 else "-%03d" % (-y)
+    for y in [0, 1, 9, 10, 99, 100, 999, 1000, 1970, 9999, -1, -9, -10, -99, -100, -999]:
+        t = days_from_civil(y, 1, 1) * 86400
+        s = e4(y)
+        cases.append("parse %s %s %s EXP %d 0" % (fixed_ids()[-1], hx("%E4Y"), hx(s), t))
+        cases.append("parse %s %s %s EXP %d 0" % (fixed_ids()[-1], hx("%E4Y-%m-%d"), hx(s + "-01-01"), t))
+        # one character fewer, one more, or a separator eaten: never four characters
+        for bad in {s[1:], s[:-1], s + "0", s[:2] + s[3:]}:
+            if len(bad) != 4:
+                cases.append("parse %s %s %s REJ" % (fixed_ids()[-1], hx("%E4Y-%m-%d"), hx(bad + "-01-01")))
+                cases.append("parse %s %s %s REJ" % (fixed_ids()[-1], hx("%E4Y"), hx(bad)))
+    for bad in ["10000", "-1000", "+123", " 123", "12 3", "0x10", "----", "1e10"]:
+        cases.append("parse %s %s %s REJ" % (fixed_ids()[-1], hx("%E4Y"), hx(bad)))
     # unstructured random pairs
     alpha = "%YmdHMSzsE*:4Tf-+ 0123456789aApbZ.\0\xff"
     for _ in range(800 if tier == "quick" else 60000):
